@@ -44,8 +44,18 @@ def _find(body, name):
     return None
 
 
+_fcache = {}
+
+
 def func(qualname):
     """Return (FunctionDef|ClassDef node, source segment, sha256)."""
+    key = (REPO, qualname)
+    if key not in _fcache:         # per process, like _cache: the module text is read once per run, so the answer cannot change within a run
+        _fcache[key] = _func(qualname)
+    return _fcache[key]
+
+
+def _func(qualname):
     parts = qualname.split('.')
     # module may be 'cli/parser'
     mod, rest = parts[0], parts[1:]
